@@ -732,4 +732,64 @@ the number of sites, which is the condition under which `validate()` gathers the
 (`inferSite`; an unlimited type would fall back to UNKNOWN-SITE - seeded change C11-r2-3). -/
 theorem listed_types_are_site_limited : ∀ tk ∈ nstypeLut, limitedIn Validate.genCfg tk.1 = true := by decide
 
+/-! ### value objects handed out by the slice (seeded C11-r6-1) -/
+
+/-- **Reads are private** (regenerated flag, probed on a real topology every run): the object a read hands out is parsed for
+that read. Everything below is stated for the code's own flag, so a parse memo shared between reads breaks these proofs. -/
+theorem value_objects_private : readsFresh = true := by decide
+
+/-- **A collector is presented with what the elements store**, whatever objects callers hold: -/
+theorem live_slice_is_stored (sl : Slice) (sizes : VObj.St Caps) (bws : VObj.St Int) :
+    liveSlice readsFresh sl sizes bws
+      = { sl with nodes := sl.nodes.mapIdx fun i n => { n with caps := VObj.storedAt sizes i },
+                  svcs := sl.svcs.mapIdx fun i s => { s with bw := VObj.storedAt bws i } } := by
+  simp only [liveSlice, withCaps, withBw, value_objects_private, VObj.presented_fresh]
+
+/-- **Frame, over every history.** Whatever a caller reads, builds, changes in place or writes to OTHER elements - in any
+number, in any order - an element nobody wrote is presented exactly as before (so the request names the CPU/RAM/disk it
+stores: `complete` / `collect_spec` on `liveSlice`). -/
+theorem unwritten_element_keeps_its_value {α : Type} [DecidableEq α] (ops : List (VObj.Op α)) (st : VObj.St α) (j : Nat)
+    (h : ∀ op ∈ ops, op.writes ≠ some j) :
+    VObj.presented readsFresh (VObj.run readsFresh st ops) j = VObj.presented readsFresh st j := by
+  simp only [value_objects_private, VObj.presented_fresh, VObj.storedAt, VObj.run_frame true ops st j h]
+
+example : ∀ op ∈ ([.read 1, .poke 0 ⟨1, 2, 10⟩, .write 1 0] : List (VObj.Op Caps)), op.writes ≠ some 0 := by decide
+
+/-- **Objects changed in place and never written back change nothing**: the authorization request and the accounting summary
+of the live slice are the same before and after any history of reads, new objects and in-place changes. -/
+theorem collect_unchanged_by_reads_and_pokes (sl : Slice) (sizes : VObj.St Caps) (bws : VObj.St Int)
+    (opsN : List (VObj.Op Caps)) (opsB : List (VObj.Op Int))
+    (hN : ∀ op ∈ opsN, op.writes = none) (hB : ∀ op ∈ opsB, op.writes = none) :
+    collect (liveSlice readsFresh sl (VObj.run readsFresh sizes opsN) (VObj.run readsFresh bws opsB))
+      = collect (liveSlice readsFresh sl sizes bws) ∧
+    logCollect (liveSlice readsFresh sl (VObj.run readsFresh sizes opsN) (VObj.run readsFresh bws opsB))
+      = logCollect (liveSlice readsFresh sl sizes bws) := by
+  have e : liveSlice readsFresh sl (VObj.run readsFresh sizes opsN) (VObj.run readsFresh bws opsB)
+      = liveSlice readsFresh sl sizes bws := by
+    simp only [live_slice_is_stored, VObj.storedAt, VObj.run_no_write _ opsN sizes hN, VObj.run_no_write _ opsB bws hB]
+  rw [e]; exact ⟨rfl, rfl⟩
+
+example : ∀ op ∈ ([.read 0, .poke 0 ⟨1, 2, 10⟩, .new ⟨9, 9, 9⟩, .poke 1 ⟨7, 7, 7⟩] : List (VObj.Op Caps)), op.writes = none := by decide
+
+/-- **Read, change in place, write back** sets the element to the changed value (and, by the frame theorem, nothing else) -/
+theorem read_modify_write {α : Type} [DecidableEq α] (st : VObj.St α) (i : Nat) (v0 v : α) (hi : st.stored[i]? = some (some v0)) :
+    VObj.presented readsFresh (VObj.run readsFresh st [.read i, .poke st.heap.length v, .write i st.heap.length]) i = some v := by
+  simp only [value_objects_private, VObj.presented_fresh]; exact VObj.rmw st i v0 v hi
+
+example : (⟨[some ⟨32, 128, 500⟩], [], []⟩ : VObj.St Caps).stored[0]? = some (some ⟨32, 128, 500⟩) := by decide
+
+/-- With a parse memo keyed by the property text (seeded C11-r6-1) two VMs of equal size share one object: shrinking `small`
+by read / change / write back makes the request name 1 core for `big`, which still stores 32, and the tally 2 cores
+instead of 33 (corpus/C11/11). -/
+theorem memo_reads_counterexample :
+    let big : Caps := ⟨32, 128, 500⟩
+    let sl : Slice := ⟨[⟨"big", "VM", "RENC", none, none, none⟩, ⟨"small", "VM", "UKY", none, none, none⟩], [], [], []⟩
+    let ops : List (VObj.Op Caps) := [.read 1, .poke 0 ⟨1, 2, 10⟩, .write 1 0]
+    let st : VObj.St Caps := ⟨[some big, some big], [], []⟩
+    get (collect (liveSlice false sl (VObj.run false st ops) ⟨[], [], []⟩)) .RESOURCE_CPU = [.i 1, .i 1] ∧
+    (logCollect (liveSlice false sl (VObj.run false st ops) ⟨[], [], []⟩)).cores = 2 ∧
+    get (collect (liveSlice true sl (VObj.run true st ops) ⟨[], [], []⟩)) .RESOURCE_CPU = [.i 32, .i 1] ∧
+    (logCollect (liveSlice true sl (VObj.run true st ops) ⟨[], [], []⟩)).cores = 33 := by
+  refine ⟨?_, ?_, ?_, ?_⟩ <;> decide
+
 end FimVerif.C11
